@@ -118,7 +118,7 @@ def _n_random(tier):
 
 def case_random(run, i):
     rng = run.rng("random", i)
-    allc = ["chr1", "chr2", "chrX"][: int(rng.integers(1, 4))]
+    allc = ["chr2", "chr10", "chrX"][: int(rng.integers(1, 4))]
     ca = [c for c in allc if rng.random() < 0.85] or allc[:1]
     cq = [c for c in allc if rng.random() < 0.85] or allc[:1]
     maxc = int(rng.choice([40, 2000, 10**6]))
